@@ -26,6 +26,12 @@ FIXED = {"al": 0, "cl": 1, "dl": 2, "bl": 3, "ah": 0, "ch": 1, "dh": 2, "bh": 3,
          "es": 1, "cs": 2, "ss": 3, "ds": 4, "fs": 5, "gs": 6}
 MEMREG = {"zdi": 7, "rdi": 7, "edi": 7, "zsi": 6, "rsi": 6, "esi": 6, "zax": 0, "rax": 0, "rbx": 3, "zbx": 3, "rcx": 1, "zcx": 1}
 PREFIX_CLASS = {"": "legacy", "3DNOW": "legacy", "REX2": "legacy", "VEX": "vex", "EVEX": "evex", "XOP": "xop"}
+# extensions later than "AVX-512 and its extensions" (quantifier of C12): no host of that generation executes them
+NOT_ON_HOST_GENERATION = ("APX_F", "AVX10_2")
+# Places where the database is coarser than the architecture (Intel SDM), keyed by (name, opcode string): operand -> read width in
+# bits.  `imul ax, r/m8` reads AL only (the database writes X:<ax>); `mov Sreg, r/m` uses the low 16 bits of the source.
+READ_WIDTH_OVERRIDE = {("imul", "F6 /5"): {0: 8}, ("mov", "8E /r"): {1: 16}}
+FEATURE_IMPLIES = (("AVX512_F", "AVX2"), ("AVX512_F", "AVX"), ("AVX2", "AVX"))
 LEGACY_PREFIXES = {0x66, 0xF2, 0xF3, 0x2E, 0x36, 0x3E, 0x26, 0x64, 0x65, 0x67, 0xF0}
 
 
@@ -97,6 +103,8 @@ def eligible(f):
         return False
     if any(o["rel"] for o in f["ops"]):
         return False
+    if any(e in NOT_ON_HOST_GENERATION for e in f["ext"]):
+        return False
     return True
 
 
@@ -113,10 +121,19 @@ def op_choices(o):
 
 
 class Pools:
-    def __init__(self, form, same):
+    def __init__(self, form, same, rng=None):
         hi = any(o["regType"] == "r8hi" for o in form["ops"])
         self.pools = {"gp": [1, 2, 3] if hi else [8, 9, 10, 11, 12, 13], "vec": [1, 2, 3, 4, 5, 6], "k": [2, 4, 6, 5], "mm": [1, 2, 3, 4],
                       "st": [1, 2, 3], "bnd": [1, 2, 3], "sreg": [1, 3, 4], "creg": [2, 3], "dreg": [2, 3], "tmm": [1, 2, 3, 4]}
+        if rng is not None:
+            # seeded register assignment: any GP register but rsp/rbp (base) and the fixed a/c/d/b, any vector register the
+            # encoding admits (EVEX: 0..31, which exercises the high-register branch of query_features), any mask but k0
+            gp = [1, 2, 3] if hi else [6, 7, 8, 9, 10, 11, 12, 13, 14, 15]
+            vec = list(range(32)) if form["prefix"] == "EVEX" else list(range(16))
+            k = [2, 4, 6] if any(o["regIndexRel"] for o in form["ops"]) else [1, 2, 3, 4, 5, 6, 7]
+            for name, p in (("gp", gp), ("vec", vec), ("k", k), ("mm", list(range(8))), ("tmm", list(range(8)))):
+                rng.shuffle(p)
+                self.pools[name] = p
         self.same = same
         self.next = {k: 0 for k in self.pools}
 
@@ -137,14 +154,19 @@ def reg_class(rt):
     return rt
 
 
-def instantiate(form, choice, same, with_implicit):
+def instantiate(form, choice, same, with_implicit, rng=None):
     """returns (tokens, dbops) or None. choice: list of 'reg'|'mem'|'imm' per operand."""
-    pools = Pools(form, same)
+    pools = Pools(form, same, rng)
     toks, dbops, ids = [], [], []
     ops = form["ops"]
     nmem = sum(1 for c in choice if c == "mem")
     for i, (o, c) in enumerate(zip(ops, choice)):
         lo, width = (o["rwxIndex"], o["rwxWidth"]) if o["rwxWidth"] and o["rwxWidth"] > 0 and o["rwxIndex"] >= 0 else (0, 0)
+        ov = READ_WIDTH_OVERRIDE.get((form["name"], form["opcode"].replace("REX.W ", "")), {})
+        if i in ov and not o["write"]:
+            width = ov[i]
+        elif i in ov:
+            width = 0        # read part narrower than the written part: only the access letters are judged
         d = {"kind": 0, "gp": False, "size": 0, "read": o["read"], "write": o["write"], "lo": lo, "width": width, "follower": 0,
              "runLen": 0, "rmChecked": False, "memAlt": [], "implicit": o["implicit"], "regspec": None}
         rid = None
@@ -226,13 +248,13 @@ def sibling_mem_sizes(form, siblings, choice, opidx):
             if a["read"] != b["read"] or a["write"] != b["write"]:
                 ok = False
             elif choice[j] == "reg":
-                ok = b["reg"] == a["reg"] and not b["memSegment"]
+                ok = (b["reg"] == a["reg"] or (a["fixed"] and not b["fixed"] and b["reg"] == a["regType"])) and not b["memSegment"]
             elif choice[j] == "imm":
-                ok = (not b["reg"]) and (not b["mem"]) and b["imm"] == a["imm"]
+                ok = (not b["reg"]) and (not b["mem"]) and bool(b["imm"])    # the instantiated value 1 fits every immediate size
             else:
                 ok = False
-        if ok and go["memSize"] and go["memSize"] > 0:
-            out.add(go["memSize"] // 8)
+        if ok:
+            out.add(go["memSize"] // 8 if go["memSize"] and go["memSize"] > 0 else 0)     # 0 = unsized memory operand
     return sorted(out)
 
 
@@ -250,6 +272,8 @@ def x86_queries(db, rng=None, limit=None):
         ch = [op_choices(o) for o in ops]
         base_choice = [c[0] for c in ch]
         variants = [(base_choice, False)]
+        if rng is not None:
+            variants.append((base_choice, "rand"))
         nreg_free = {}
         for o, c in zip(ops, base_choice):
             if c == "reg" and not o["fixed"] and not o["regIndexRel"]:
@@ -273,11 +297,18 @@ def x86_queries(db, rng=None, limit=None):
                 settings.append(("E", "-"))
             for opts, extra in settings:
                 for with_impl in (True, False):
-                    inst = instantiate(f, choice, same, with_impl)
+                    if same == "rand":
+                        st = rng.getstate()
+                        inst = instantiate(f, choice, False, with_impl, rng)
+                        if with_impl:
+                            rng.setstate(st)       # the short form uses the same registers
+                    else:
+                        inst = instantiate(f, choice, same, with_impl)
                     if inst is None:
                         continue
                     toks, dbops = inst
-                    if extra != "-" and "z" not in opts and dbops and dbops[0]["write"] and dbops[0]["kind"] in (1, 2):
+                    if extra != "-" and "z" not in opts and dbops and dbops[0]["write"] and \
+                            (dbops[0]["kind"] == 2 or (dbops[0]["kind"] == 1 and ops[0]["regType"] in ("xmm", "ymm", "zmm"))):
                         dbops[0]["read"] = True      # merge-masking keeps the unselected destination elements
                     if all(c != "mem" for c in choice):
                         kept = [i for i, o in enumerate(ops) if with_impl or not o["implicit"]]
@@ -287,7 +318,7 @@ def x86_queries(db, rng=None, limit=None):
                     name = f["name"]
                     line = "x x64 %s %s %s %s" % (name, opts, extra, " ".join(toks))
                     qs.append({"line": line.strip(), "form": fi, "dbops": dbops, "implicit": with_impl,
-                               "variant": "%s%s%s" % ("same" if same else "distinct", "/mem" if "mem" in choice else "/reg",
+                               "variant": "%s%s%s" % ("seeded" if same == "rand" else "same" if same else "distinct", "/mem" if "mem" in choice else "/reg",
                                                       ("/" + opts + extra) if (opts, extra) != ("-", "-") else ""),
                                "opts": opts, "extra": extra})
     return qs
@@ -313,19 +344,38 @@ def parse_answer(ans):
 
 
 def prefix_class_of_bytes(hexs):
+    """(prefix class, opcode byte) of an encoding produced by the assembler (64-bit mode)"""
     b = bytes.fromhex(hexs)
     i = 0
     while i < len(b) and b[i] in LEGACY_PREFIXES:
         i += 1
     if i >= len(b):
-        return "legacy"
+        return "legacy", None
     if b[i] == 0x62:
-        return "evex"
-    if b[i] in (0xC4, 0xC5):
-        return "vex"
+        return "evex", b[i + 4] if i + 4 < len(b) else None
+    if b[i] == 0xC5:
+        return "vex", b[i + 2] if i + 2 < len(b) else None
+    if b[i] == 0xC4:
+        return "vex", b[i + 3] if i + 3 < len(b) else None
     if b[i] == 0x8F and i + 1 < len(b) and (b[i + 1] & 0x1F) >= 8:
-        return "xop"
-    return "legacy"
+        return "xop", b[i + 3] if i + 3 < len(b) else None
+    if 0x40 <= b[i] <= 0x4F:
+        i += 1
+    if i < len(b) and b[i] == 0x0F:
+        i += 1
+        if i < len(b) and b[i] in (0x38, 0x3A):
+            i += 1
+        elif i < len(b) and b[i] == 0x0F and i + 2 < len(b):
+            return "legacy", b[-1]          # 3DNow!: opcode is the trailing byte
+    return "legacy", b[i] if i < len(b) else None
+
+
+def encoding_matches(form, hexs):
+    cls, opb = prefix_class_of_bytes(hexs)
+    if cls != PREFIX_CLASS.get(form["prefix"], "?") or opb is None or not form["opbyte"]:
+        return False
+    want = int(form["opbyte"], 16)
+    return (opb & 0xF8) == (want & 0xF8) if form["ri"] else opb == want
 
 
 def make_row(q, form, ans, featids, flagbits):
@@ -339,11 +389,14 @@ def make_row(q, form, ans, featids, flagbits):
         if v in ("W", "X", "U", "0", "1"):
             dbw |= flagbits[k]
     enc = ans.get("e", "!")
-    feat_checked = (not enc.startswith("!")) and prefix_class_of_bytes(enc) == PREFIX_CLASS.get(form["prefix"], "?")
-    ext = sorted(featids[e] for e in form["ext"] if e in featids)
+    feat_checked = (not enc.startswith("!")) and encoding_matches(form, enc)
+    # AVX512_VL is listed for every member of an xmm/ymm/zmm group; architecturally only 128/256-bit EVEX forms need it
+    uses_zmm = any(o["regType"] == "zmm" or o["vsibReg"] == "zmm" for o in form["ops"])
+    ext = sorted(featids[e] for e in form["ext"] if e in featids and not (e == "AVX512_VL" and uses_zmm))
     dbops = tuple((d["kind"], d["gp"], d["size"], d["read"], d["write"], d["lo"], d["width"], d["follower"], d["runLen"], d["rmChecked"],
                    tuple(d["memAlt"])) for d in q["dbops"])
-    return (True, dbops, dbr, dbw, feat_checked, tuple(ext), tuple(ans["oplist"]), int(ans["rf"], 16), int(ans["wf"], 16),
+    imp = tuple((featids[a], featids[b]) for a, b in FEATURE_IMPLIES)
+    return (True, dbops, dbr, dbw, feat_checked, tuple(ext), imp, tuple(ans["oplist"]), int(ans["rf"], 16), int(ans["wf"], 16),
             tuple(ans.get("feat", [])))
 
 
@@ -419,7 +472,7 @@ def a64_queries(db):
 def make_a64_row(q, ans):
     dbops = tuple((d["kind"], d["gp"], d["size"], d["read"], d["write"], d["lo"], d["width"], d["follower"], d["runLen"], d["rmChecked"],
                    tuple(d["memAlt"])) for d in q["dbops"])
-    return (False, dbops, 0, 0, False, (), tuple(ans["oplist"]), 0, 0, ())
+    return (False, dbops, 0, 0, False, (), (), tuple(ans["oplist"]), 0, 0, ())
 
 
 # ------------------------------------------------------------------------------------------------------------------------------
@@ -431,12 +484,13 @@ def lb(b):
 
 
 def lean_row(r):
-    mode64, dbops, dbr, dbw, fc, ext, iops, ir, iw, feat = r
+    mode64, dbops, dbr, dbw, fc, ext, imp, iops, ir, iw, feat = r
     ds = ", ".join("⟨%d, %s, %d, %s, %s, %d, %d, %d, %d, %s, [%s]⟩" % (k, lb(gp), sz, lb(rd), lb(wr), lo, wd, fo, rl, lb(rc), ", ".join(map(str, ma)))
                    for (k, gp, sz, rd, wr, lo, wd, fo, rl, rc, ma) in dbops)
     is_ = ", ".join("⟨0x%x, %d, %d, %d, 0x%x, 0x%x, 0x%x⟩" % o for o in iops)
-    return "⟨%s, [%s], 0x%x, 0x%x, %s, [%s], [%s], 0x%x, 0x%x, [%s]⟩" % (
-        lb(mode64), ds, dbr, dbw, lb(fc), ", ".join(map(str, ext)), is_, ir, iw, ", ".join(map(str, feat)))
+    return "⟨%s, [%s], 0x%x, 0x%x, %s, [%s], [%s], [%s], 0x%x, 0x%x, [%s]⟩" % (
+        lb(mode64), ds, dbr, dbw, lb(fc), ", ".join(map(str, ext)), ", ".join("(%d, %d)" % p for p in imp), is_, ir, iw,
+        ", ".join(map(str, feat)))
 
 
 def csv(xs):
@@ -444,11 +498,11 @@ def csv(xs):
 
 
 def monitor_line(r):
-    mode64, dbops, dbr, dbw, fc, ext, iops, ir, iw, feat = r
+    mode64, dbops, dbr, dbw, fc, ext, imp, iops, ir, iw, feat = r
     w = ["mon", str(int(mode64)), str(len(dbops))]
     for (k, gp, sz, rd, wr, lo, wd, fo, rl, rc, ma) in dbops:
         w += [str(k), str(int(gp)), str(sz), str(int(rd)), str(int(wr)), str(lo), str(wd), str(fo), str(rl), str(int(rc)), csv(ma)]
-    w += ["%x" % dbr, "%x" % dbw, str(int(fc)), csv(ext), str(len(iops))]
+    w += ["%x" % dbr, "%x" % dbw, str(int(fc)), csv(ext), csv([x for p in imp for x in p]), str(len(iops))]
     for o in iops:
         w += ["%x" % o[0], str(o[1]), str(o[2]), str(o[3]), "%x" % o[4], "%x" % o[5], "%x" % o[6]]
     w += ["%x" % ir, "%x" % iw, csv(feat)]
@@ -458,7 +512,7 @@ def monitor_line(r):
 CHUNK = 200
 
 
-def render_rows(rows, modname, tablename):
+def render_rows(rows, modname, tablename, pred="rowOk"):
     """rows: list of distinct canonical rows -> dict filename -> content. One file per 4 chunks keeps every file fast."""
     files = {}
     per_file = 4 * CHUNK
@@ -475,10 +529,10 @@ def render_rows(rows, modname, tablename):
             s.append("def %s : List Row := [" % cn)
             s.append(",\n".join("  " + lean_row(r) for r in part[c:c + CHUNK]))
             s.append("]")
-            s.append("theorem %s_ok : %s.all rowOk = true := by decide +kernel" % (cn, cn))
+            s.append("theorem %s_ok : %s.all %s = true := by decide +kernel" % (cn, cn, pred))
             s.append("")
         s.append("def part%d : List Row := %s" % (fno, " ++ ".join(names) if names else "[]"))
-        s.append("theorem part%d_ok : part%d.all rowOk = true := by" % (fno, fno))
+        s.append("theorem part%d_ok : part%d.all %s = true := by" % (fno, fno, pred))
         s.append("  simp only [part%d, List.all_append, Bool.and_eq_true%s]" % (fno, "".join(", %s_ok" % n for n in names)))
         s.append("  all_goals trivial" if len(names) > 1 else "")
         s.append("end Gen.%s" % modname)
@@ -490,7 +544,7 @@ def render_rows(rows, modname, tablename):
     s += ["namespace Gen.%s" % modname, "open Spec.RWCover", ""]
     s.append("/-- %s -/" % tablename)
     s.append("def table : List Row := %s" % " ++ ".join("part%d" % i for i in range(nfiles)))
-    s.append("theorem table_ok : table.all rowOk = true := by")
+    s.append("theorem table_ok : table.all %s = true := by" % pred)
     s.append("  simp only [table, List.all_append, Bool.and_eq_true%s]" % "".join(", part%d_ok" % i for i in range(nfiles)))
     if nfiles > 1:
         s.append("  all_goals trivial")
@@ -498,3 +552,29 @@ def render_rows(rows, modname, tablename):
     s.append("end Gen.%s" % modname)
     files["AsmjitVerif/Gen/%s.lean" % modname] = "\n".join(s) + "\n"
     return files
+
+
+def render_tables(dump_lines, modname, defname):
+    """compiler dump of the generated tables (`T kind idx v...` lines, hex fields already decoded by kind) -> Lean literal"""
+    kinds = {"inst": 1, "rwa": 2, "rwb": 3, "op": 4, "rm": 5, "rwflags": 6, "addl": 7, "instflags": 8}
+    hexcols = {"op": (0, 1, 4), "rwflags": (0, 1), "instflags": (0,)}
+    rows = []
+    for l in dump_lines:
+        w = l.split()
+        if len(w) < 3 or w[0] != "T" or w[1] not in kinds:
+            continue
+        vals = w[3:]
+        if w[1] == "inst":
+            vals = vals[1:]          # the name is C13's subject
+        nums = [int(v, 16) if i in hexcols.get(w[1], ()) else int(v) for i, v in enumerate(vals)]
+        rows.append([kinds[w[1]], int(w[2])] + nums)
+    if len(rows) < 2000:
+        raise TranslateError("table dump unexpectedly small (%d rows)" % len(rows))
+    s = ["-- GENERATED by tools/gen_c12.py (compiler dump of x86instdb.cpp tables); do not edit", "set_option maxRecDepth 1000000",
+         "namespace Gen.%s" % modname,
+         "/-- rows `[table, index, fields…]`; table 1 = per-instruction indices (rw A, rw B, additional info, implicit-z, prefer-evex), 2/3 = "
+         "rw_info_a/b_table, 4 = rw_info_op_table, 5 = rw_info_rm_table, 6 = rw_flags_info_table, 7 = additional_info_table, "
+         "8 = inst_flags_table -/",
+         "def %s : List (List Nat) := [" % defname,
+         ",\n".join("  [%s]" % ", ".join(map(str, r)) for r in rows), "]", "end Gen.%s" % modname]
+    return "\n".join(s) + "\n", rows
